@@ -408,6 +408,11 @@ func genC07(o *out, r *Rng) {
 		{"format(\"%s\", \"fA\", 90)", "fA", 90, 0, -1}, {"format(\"%s\", 190, \"fA\")", "fA", 190, 0, -1},
 		{"format(\"%s\", 0x50)", "", 80, 0, -1}, {"format(\"%s\", maxLineLength=0x5A)", "", 90, 0, -1}, {"format(\"%s\", \"fB\", 0120)", "fB", 80, 0, -1},
 		{"format(\"%s\", numLines=0x3, maxLineLength=0x46)", "", 70, 3, -1}, {"format(\"%s\", 0x64, cursorOverlapWidth=0xB, numLines=04)", "", 100, 4, 11},
+		// integers outside int64 (strconv.ParseInt with the error ignored gives the nearest int64), syntax errors (0): no
+		// generator-side expectation, the correspondence with the model decides (found by the proof of FormatParams.v)
+		{"format(\"%s\", 99999999999999999999)", "", -1, 0, -1}, {"format(\"%s\", maxLineLength=9223372036854775808)", "", -1, 0, -1}, {"format(\"%s\", \"fB\", -99999999999999999999)", "fB", -1, 0, -1},
+		{"format(\"%s\", numLines=99999999999999999999)", "", -1, 0, -1}, {"format(\"%s\", 0xFFFFFFFFFFFFFFFFFF, numLines=1)", "", -1, 0, -1}, {"format(\"%s\", maxLineLength=0x, numLines=0b)", "", -1, 0, -1},
+		{"format(\"%s\", numLines=-9223372036854775809, maxLineLength=9223372036854775807)", "", -1, 0, -1}, {"format(\"%s\", 40, cursorOverlapWidth=-99999999999999999999)", "", -1, 0, -1},
 	}
 	for _, tx := range texts {
 		for _, fcl := range calls {
